@@ -441,6 +441,11 @@ impl<S> AssetCache<S> {
     pub fn verif_msgs_pending(&self) -> Option<usize> {
         self.reloader.as_ref().map(|r| r.verif_msgs_pending())
     }
+
+    /// Identity of the reloader thread for `verif::reloader_in_ready` (`None`: no reloader).
+    pub fn verif_reloader_id(&self) -> Option<usize> {
+        self.reloader.as_ref().map(|r| r.verif_id())
+    }
 }
 
 impl<S> Default for AssetCache<S>
